@@ -32,8 +32,8 @@ SHARDS = {"quick": 8, "thorough": 16}
 BUDGET_S = {"quick": 100, "thorough": 1300}
 DECIDING = ["epochs", "cardinality", "referential", "readback", "readback_orm", "atomicity"]
 MANIFEST = {
-    "technique": "runtime monitoring: capture at saveDatabaseOutput + offline SQL audit of the produced SQLite file; SQL fault injection enumerating the failing statement of a step's transaction",
-    "level_text": "held on every executed configuration/history: exact cardinalities per output epoch, unique increasing epochs with matching timestamps, no dangling references, bit-exact read-back; a step's rows are all-or-nothing under a fault at every enumerated statement index",
+    "technique": "runtime monitoring: capture at saveDatabaseOutput and at every recorded filter step + offline SQL audit of the produced SQLite file + read-back through the library's own record classes; SQL fault injection enumerating the failing statement of a step's transaction",
+    "level_text": "held on every executed configuration/history: exact cardinalities per output epoch, unique increasing epochs with matching timestamps, no dangling references, bit-exact read-back of states, covariances and filter steps (table columns and record-class accessors); a step's rows are all-or-nothing under a fault at every enumerated statement index",
     "level_note": "sampled configurations; fault points enumerated per chosen step (statement granularity)",
 }
 
